@@ -12,6 +12,7 @@ import common
 import toprun
 import mainrun
 import pelbuild
+import clirun
 from common import Check, lean_batch, tlist
 
 TRUSTED = ['harness/toprun.py (worlds materialised as real trees, the real peltool.main() run end to end in-process with nothing replaced, recursive snapshots, comparison with the driver op runmain = Pel.runMain of PelModel/Top.lean)',
@@ -197,6 +198,22 @@ def run(tier, seed):
                                                                            'actual': got, 'stdout': out.getvalue()[:200]}, 'cli_count')
     finally:
         shutil.rmtree(tmp, ignore_errors=True)
+    # -f FILE -x: the hex display follows the same selection as the JSON display (a hidden / informational PEL is shown only when asked for)
+    tmpf = tempfile.mkdtemp(prefix='c07f_')
+    try:
+        for sev_, af_, argv_, shown in ((0x40, 0x6000, [], False), (0x40, 0x6000, ['-H'], True), (0x00, 0x2000, [], False), (0x00, 0x2000, ['-E'], True), (0x40, 0xA000, [], True),
+                                      (0x40, 0xA000, ['-O', '-H'], False), (0x20, 0xA000, ['-O', '-S', 'Predictive'], True), (0x20, 0xA000, ['-O', '-S', 'Critical'], False)):
+            fpath = os.path.join(tmpf, 'one.pel')
+            open(fpath, 'wb').write(pelbuild.pel([pelbuild.UH(sev=sev_, af=af_), pelbuild.SRC()]))
+            for hexopt in ([], ['-x']):
+                so, se, sx = clirun.run_main(['-f', fpath] + argv_ + hexopt)
+                ck.case(key=('file-selection', sev_, af_, tuple(argv_), bool(hexopt)))
+                ck.count('-f %s selection' % ('-x' if hexopt else 'JSON'))
+                if bool(so.strip()) != shown:
+                    ck.fail('-f%s %s a PEL that the selection options %s' % (' -x' if hexopt else '', 'does not display' if shown else 'displays', 'select' if shown else 'do not select'),
+                            {'op': 'cli-file', 'argv': argv_ + hexopt, 'severity': sev_, 'action_flags': af_, 'stdout': so[:200]}, 'file_selection')
+    finally:
+        shutil.rmtree(tmpf, ignore_errors=True)
     # the Config that main() builds from the command line (PelModel/Main.lean: mkConfig, look-up flag)
     mainrun.check_main(ck, tier, 'config')
     # the WHOLE command end to end on real trees vs Pel.runMain (PelModel/Top.lean), and the command-level properties on the real runs
